@@ -28,7 +28,7 @@ theorem decVal_append_one (t : Str) (c : UInt8) : decVal (t ++ [c]) = decVal t *
 theorem digit_toNat (d : Nat) (h : d < 10) : (UInt8.ofNat (48 + d)).toNat = 48 + d := by
   simp [UInt8.toNat_ofNat]; omega
 
-theorem decDigits_spec (n : Nat) : (decDigits n).all isDigit = true ∧ decVal (decDigits n) = n ∧ decDigits n ≠ [] := by
+theorem decDigits_spec (n : Nat) : (decDigits n).all jsonIsDigit = true ∧ decVal (decDigits n) = n ∧ decDigits n ≠ [] := by
   induction n using Nat.strongRecOn with
   | _ n ih =>
     rw [decDigits]
@@ -36,13 +36,13 @@ theorem decDigits_spec (n : Nat) : (decDigits n).all isDigit = true ∧ decVal (
     · simp only [h, dite_true]
       have := digit_toNat n h
       refine ⟨?_, ?_, by simp⟩
-      · simp [isDigit, this]; omega
+      · simp [jsonIsDigit, this]; omega
       · simp [decVal]; omega
     · simp only [h, dite_false]
       obtain ⟨a, b, c⟩ := ih (n / 10) (by omega)
       have hd := digit_toNat (n % 10) (by omega)
       refine ⟨?_, ?_, by simp⟩
-      · simp [List.all_append, a, isDigit, hd]; omega
+      · simp [List.all_append, a, jsonIsDigit, hd]; omega
       · rw [decVal_append_one, b, hd]; omega
 
 theorem uintLit_decDigits (n max : Nat) (h : n ≤ max) : uintLit (decDigits n) max = some n := by
